@@ -131,7 +131,8 @@ func (k Keeper) GetNextSuperNodes(ctx sdk.Context, status uint32, reputation flo
 	snodes := k.GetAllSuperNodes(ctx)
 	i := uint8(round[0])
 	if len(snodes) > 0 {
-		for {
+		// visit every super node at most once, starting at the cursor
+		for n := 0; n < len(snodes); n++ {
 			if i >= uint8(len(snodes)) {
 				i = 0
 			}
